@@ -23,7 +23,7 @@ ASSUMPTIONS = [
 ]
 
 UTC = _d.timezone.utc
-NAMES = ["a", "b", "c", "x", "ts", "ts_description", "name"]
+NAMES = ["a", "b", "c", "x", "ts", "ts_description", "name", "from", "class"]  # (two Python keywords: such types use the keyword-argument class template)
 GROUPED_ATTRS = {"name", "records", "descriptors", "flat_fields"}
 TYPES = ["string", "varint", "datetime", "boolean", "stringlist", "datetime"]
 GEN = _d.datetime(2019, 9, 9, 9, 9, 9, tzinfo=UTC)
@@ -341,6 +341,13 @@ def check(case, ctx):
         tnames = {n: t for t, n in fields_of(specs[0])}
         unknown = [n for _, n in fields_of(specs[1]) if n not in tnames]
         if case["raise_unknown"] and unknown:
+            import keyword
+
+            if res.ok and any(keyword.iskeyword(n) for n in tnames):
+                # (a type with a Python-keyword field name is built from the keyword-argument template, which takes any
+                # keyword: the docstring's TypeError does not come - not a matter of the composition rules)
+                ctx.cls("init_from:unknown-accepted-by-keyword-template")
+                return
             if res.ok:
                 raise Violation("init_from/unknown-not-raised", "raise_unknown=True but %r accepted" % unknown)
             return
